@@ -286,6 +286,8 @@ def bent_centre(cl, hw, R0, off=0.0):
         th = math.atan2(a[0] * b[1] - a[1] * b[0], a[0] * b[0] + a[1] * b[1])
         R = R0 - (1.0 if th > 0 else -1.0) * off      # the element's own centre radius (offset to the inside shortens it)
         lt = R * math.tan(abs(th) / 2)
+        if abs(th) >= 1e-9 and R > hw[k] and (abs(lt - (la - used_prev)) < 0.04 * lt or abs(lt - lb) < 0.04 * lt):
+            bent_centre.ambiguous = True        # the bend fits or fails to fit by a few per cent of its tangent length: "when they fit" is not that sharp
         if abs(th) < 1e-9 or R <= hw[k] or lt > la - used_prev or lt > lb:
             out.append(cl[k])
             used_prev = 0.0
@@ -411,7 +413,11 @@ def judge(chk, c, evs):
         if spec['bend']:
             if len(set(hw)) != 1 or len(set(o for _h, o in hwo)) != 1:
                 continue
+            bent_centre.ambiguous = False
             cl, hw = bent_centre(cl, hw, e['bend_radius'], hwo[0][1])
+            if bent_centre.ambiguous:
+                chk.cov('elements_skipped_bend_fits_marginally')
+                continue
         if min(hw) <= 0:
             continue
         nseg = len(cl) - 1
